@@ -3,6 +3,7 @@
 //! command-line / configuration-file layering (C16).  Logs are validated by TLC.
 
 mod cfgdrv;
+mod reportdrv;
 mod tuidrv;
 
 fn arg<'a>(args: &'a [String], name: &str) -> Option<&'a str> {
@@ -18,6 +19,7 @@ fn main() {
     let stats = arg(rest, "--stats").map(ToString::to_string);
     let code = match args.get(1).map(String::as_str) {
         Some("tui") => tuidrv::run(seed, n, arg(rest, "--family").unwrap_or("tui"), &out, stats.as_deref()),
+        Some("report") => reportdrv::run(seed, n, &out, stats.as_deref()),
         Some("layout") => {
             // one horizontal split, as ratatui's Table does for its columns: explores the termination of the
             // layout solver for a given width and list of Min constraints (one process = one hash seed)
